@@ -2,7 +2,10 @@ package checks
 
 import (
 	"context"
+	"crypto/sha256"
 	"fmt"
+	"github.com/IBM/TSS/mpc/ps"
+	math "github.com/IBM/mathlib"
 	"math/rand"
 	"runtime"
 	"sync"
@@ -367,25 +370,84 @@ func runC20(c c20Case) *vh.Outcome {
 			o.Classes = append(o.Classes, "flooded-keygen-completed(not judged)")
 		}
 	}
-	if info.KeyGenOK == c.N && c.Signs > 0 && c.Backend != "ps" {
+	signInput := []byte("0123456789abcdef0123456789abcdef")
+	canSign := info.KeyGenOK == c.N && c.Signs > 0
+	if canSign && c.Backend == "ps" {
+		// a valid blinded request as the thing to sign
+		canSign = false
+		tp := &ps.TPS{Curve: math.Curves[1], Party: 1, Logger: &quietLogger{}, MessageLength: 1}
+		tp.Init(all, 2, nil)
+		if tp.SetShareData(shares[1]) == nil {
+			if tpk, err := tp.ThresholdPK(); err == nil {
+				var prover ps.Prover
+				prover.Logger = &quietLogger{}
+				if prover.Init(math.Curves[1], 1, tpk, all) == nil {
+					req, _ := prover.Blind([][]byte{[]byte("m")})
+					signInput = req.Bytes()
+					canSign = true
+				}
+			}
+		}
+	}
+	if canSign {
 		for _, id := range all {
 			parties[id].SetStoredData(shares[id]) // only between sessions
 		}
 		var swg sync.WaitGroup
 		var sok int32
+		// out-of-phase traffic for the signing sessions: participant 1's key-generation frames (shares, commitments,
+		// revealed keys) again, under the topics of the signing sessions, while the signing instances are being set up
+		stopCross := make(chan struct{})
+		var cwg sync.WaitGroup
+		recMu.Lock()
+		dkgFrames := append([]rtFrame(nil), recorded...)
+		recMu.Unlock()
+		if c.Flood && len(dkgFrames) > 0 {
+			cwg.Add(1)
+			go func() {
+				defer cwg.Done()
+				for i := 0; i < 4000; i++ {
+					select {
+					case <-stopCross:
+						return
+					default:
+					}
+					f := dkgFrames[i%len(dkgFrames)]
+					if len(f.data) < 2 || f.data[0] != 0xFF {
+						continue
+					}
+					tp := sha256.Sum256([]byte(fmt.Sprintf("c20-topic-%d", i%c.Signs)))
+					g := rtFrame{from: 1, msgType: f.msgType, topic: tp[:], data: f.data}
+					for _, dst := range all {
+						if dst != 1 {
+							select {
+							case net.link(1, dst) <- g:
+								atomic.AddInt32(&injected, 1)
+							default:
+							}
+						}
+					}
+					if i%8 == 0 {
+						time.Sleep(50 * time.Microsecond)
+					}
+				}
+			}()
+		}
 		for s := 0; s < c.Signs; s++ {
 			s := s
 			swg.Add(1)
 			go func() {
 				defer swg.Done()
 				n := run("sign", func(id uint16, ctx context.Context) error {
-					_, err := parties[id].Sign(ctx, []byte("0123456789abcdef0123456789abcdef"), fmt.Sprintf("c20-topic-%d", s))
+					_, err := parties[id].Sign(ctx, signInput, fmt.Sprintf("c20-topic-%d", s))
 					return err
-				}, all, 6*time.Second)
+				}, all, 2500*time.Millisecond)
 				atomic.AddInt32(&sok, int32(n))
 			}()
 		}
 		swg.Wait()
+		close(stopCross)
+		cwg.Wait()
 		info.SignOK = int(sok)
 	}
 	net.close()
